@@ -49,6 +49,47 @@ func (t *TDisp) BuildFieldValue(name string) (interface{}, error) {
 
 func init() { testTypes["TDisp"] = reflect.TypeOf(TDisp{}) }
 
+// named scalar and slice-of-named types: not among the Go types the codec supports, so a struct holding them is rejected with
+// an error (the model's TBadType: one field of unsupported type) — whatever bytes are on the wire, valid ones included
+type (
+	namedEnum kmip.Enum
+	namedStr  string
+	namedI32  int32
+	namedI64  int64
+	namedBool bool
+)
+type TNamedEnum struct {
+	kmip.Tag `kmip:"ACTIVATION_DATE"`
+	A        namedEnum `kmip:"APPLICATION_DATA,required"`
+}
+type TNamedStr struct {
+	kmip.Tag `kmip:"ACTIVATION_DATE"`
+	A        namedStr `kmip:"APPLICATION_DATA,required"`
+}
+type TNamedI32 struct {
+	kmip.Tag `kmip:"ACTIVATION_DATE"`
+	A        namedI32 `kmip:"APPLICATION_DATA,required"`
+}
+type TNamedI64 struct {
+	kmip.Tag `kmip:"ACTIVATION_DATE"`
+	A        namedI64 `kmip:"APPLICATION_DATA,required"`
+}
+type TNamedBool struct {
+	kmip.Tag `kmip:"ACTIVATION_DATE"`
+	A        namedBool `kmip:"APPLICATION_DATA,required"`
+}
+type TNamedSlice struct {
+	kmip.Tag `kmip:"ACTIVATION_DATE"`
+	A        []namedEnum `kmip:"APPLICATION_DATA,required"`
+}
+
+// ttlvItem builds one primitive item under APPLICATION_DATA wrapped in an ACTIVATION_DATE structure
+func wrapAppData(typ byte, value []byte) []byte {
+	pad := (8 - len(value)%8) % 8
+	item := append([]byte{0x42, 0x00, 0x02, typ, 0, 0, 0, byte(len(value))}, append(append([]byte(nil), value...), make([]byte, pad)...)...)
+	return append([]byte{0x42, 0x00, 0x01, 0x01, 0, 0, 0, byte(len(item))}, item...)
+}
+
 var badValues = []func() interface{}{
 	func() interface{} { return nil },
 	func() interface{} { return (*kmip.GetRequest)(nil) },
@@ -215,6 +256,13 @@ func runC13(r *Result, d *drv.Driver, tier string, seed int64, replay string) {
 		{"TDyn", func() interface{} { return &TDyn{} }, [][]byte{tdisp[0], mustHex("42000101000000104200020200000004000000010000000000")}},
 		{"TDisp", func() interface{} { return &TDisp{} }, tdisp},
 		{"Name", func() interface{} { return &kmip.Name{} }, [][]byte{nameBytes, nameBytes[:20], nil}},
+		// the valid stream for the underlying core type, a truncated one, and nothing
+		{"TBadType", func() interface{} { return &TNamedEnum{} }, [][]byte{wrapAppData(5, []byte{0, 0, 0, 3}), wrapAppData(5, []byte{0, 0, 0, 3})[:12], nil}},
+		{"TBadType", func() interface{} { return &TNamedStr{} }, [][]byte{wrapAppData(7, []byte("label")), nil}},
+		{"TBadType", func() interface{} { return &TNamedI32{} }, [][]byte{wrapAppData(2, []byte{0, 0, 0, 9}), nil}},
+		{"TBadType", func() interface{} { return &TNamedI64{} }, [][]byte{wrapAppData(3, []byte{0, 0, 0, 0, 0, 0, 0, 9}), nil}},
+		{"TBadType", func() interface{} { return &TNamedBool{} }, [][]byte{wrapAppData(6, []byte{0, 0, 0, 0, 0, 0, 0, 1}), nil}},
+		{"TBadType", func() interface{} { return &TNamedSlice{} }, [][]byte{wrapAppData(5, []byte{0, 0, 0, 3}), nil}},
 	}
 	lines = nil
 	var got []string
